@@ -32,7 +32,7 @@ def run_one(mid, prop, apply_fn, tier, runs, extra_env=None):
         env["MMD6_REPO"] = wt
         if extra_env:
             env.update(extra_env)
-        cmd = [sys.executable, os.path.join(HERE, "run_check.py"), prop, "--tier", tier, "--no-evidence", "--tag", "-mut-" + mid]
+        cmd = [sys.executable, os.path.join(HERE, "run_check.py"), prop, "--tier", tier, "--no-evidence", "--tag=-mut-" + mid]
         if runs:
             cmd += ["--runs", str(runs)]
         t0 = time.time()
